@@ -5,8 +5,8 @@ from .. import core
 from ..core import Script, Rng
 from . import b3sum_gen
 
-ARTEFACTS = ["G11-b3sum", "G12-io"]
-EXTRA_PROPS = [("B3.Props.C13T", "B3/Props/C13T.lean"), ("B3.Props.C11T", "B3/Props/C11T.lean")]   # theorems about the code translated from the sources
+ARTEFACTS = ["G11-b3sum", "G12-io", "G28-b3sum-io"]
+EXTRA_PROPS = [("B3.Props.C13T", "B3/Props/C13T.lean"), ("B3.Props.C11T", "B3/Props/C11T.lean"), ("B3.Props.C12T", "B3/Props/C12T.lean")]   # theorems about the code translated from the sources
 PROPS_MODULE = "B3.B3sum.Props12"
 PROPS_PATH = "B3/B3sum/Props12.lean"
 RULE = ("process-level runs of the real binary (root file = /repo/b3sum/src/main.rs, shim manifest) in a scratch directory: hashing cases "
